@@ -149,6 +149,10 @@ inductive Call where
   | done (id : Nat) (ctors : List (Nat × Nat)) (res : Res)
 deriving DecidableEq, Repr, Hashable
 
+def Call.id : Call → Nat
+  | .invoked id _ => id
+  | .done id _ _ => id
+
 inductive Outcome where
   | ok | err | canceled
 deriving DecidableEq, Repr, Hashable
@@ -555,7 +559,8 @@ def step (s : St) : Ev → Option St
     match s.cfg with
     | none => none
     | some c =>
-      if op.allowed c.rc then some { s with calls := s.calls ++ [.invoked id op] } else none
+      -- call ids are unique (the harness numbers the calls)
+      if op.allowed c.rc ∧ (s.calls.all fun c => c.id != id) then some { s with calls := s.calls ++ [.invoked id op] } else none
   | .exec id =>
     match pendingOp s.calls id with
     | some op =>
